@@ -91,6 +91,8 @@ MUTANTS = [
     ('calls', INSTR, '            // A method call is a call: count the tick like `call_method_common` does.\n            eval.report_forward_progress()?;\n', '', 'C15.calls.known_method_call_ticks'),
     ('calls', INSTR, '    ) -> crate::Result<()> {\n        eval.report_forward_progress()?;\n        let arguments = args.pop_from_stack(frame);\n        let r = eval.with_call_stack(', '    ) -> crate::Result<()> {\n        let arguments = args.pop_from_stack(frame);\n        let r = eval.with_call_stack(', 'C15.calls.frozen_def_call_ticks'),
     ('calls', INSTR, '        if let Err(e) = eval.report_forward_progress() {\n            return InstrControl::Err(e);\n        }\n', '', 'C15.calls.loop_backedge_ticks'),
+    ('calls', INSTR, '        eval.with_call_stack(self.to_value(), Some(location), |eval| {\n            self.invoke(args, eval)\n        })', '        self.invoke(args, eval)', 'bc_invoke'),
+    ('calls', 'starlark/src/values/layout/value.rs', '        eval.with_call_stack(self, location, |eval| {\n            self.get_ref_full().invoke(args, eval)\n        })', '        self.get_ref_full().invoke(args, eval)', 'invoke_with_loc'),
     ('strindex', STRT, 'let ind = CharIndex(i.unsigned_abs() as usize);', 'let ind = CharIndex((-i) as usize);', 'at'),
     ('strindex', STRT, 'Ok(heap.alloc(self.as_bytes()[(len_chars - ind).0] as char))', 'Ok(heap.alloc(self.as_bytes()[len_chars.0] as char))', 'at'),
     ('smallmap', SMAP, '            // but `clear` is rare operation anyway.\n            index.clear();', '            // but `clear` is rare operation anyway.\n            let _ = index;', 'C11.smallmap.clear'),
